@@ -245,6 +245,7 @@ func (ck *checker) partTerminal() {
 	ck.optionsProbe(s.Addr())
 	ck.interpreterProbe()
 	ck.followAuthProbe()
+	ck.monitorProbe()
 }
 
 // optionsProbe: one HTTP OPTIONS request gets one response, however many
@@ -459,5 +460,64 @@ func (ck *checker) followAuthProbe() {
 	}
 	if !strings.HasPrefix(replies[1], "-") || replies[2] != "+PONG\r\n" || replies[len(replies)-1] != "+OK\r\n" {
 		ck.report("seg-terminal:follow-leaderauth", fmt.Sprintf("sequence %v answered %q: FOLLOW against a leader that refuses AUTH must be an error and the connection must go on working", seq, replies), map[string]any{"commands": seq, "replies": replies})
+	}
+}
+
+// monitorProbe: a MONITOR connection that stops reading must not hold up the
+// other connections (the server may drop it).
+func (ck *checker) monitorProbe() {
+	ctx := ck.ctx
+	s := ck.startServer()
+	defer s.Kill9()
+	m, err := wire.Dial(s.Addr(), ioTimeout)
+	if err != nil {
+		ctx.Inconclusive("monitor probe: " + err.Error())
+		return
+	}
+	defer m.Close()
+	m.Write(wire.EncodeRESP("MONITOR"))
+	if f, err := m.Next(wire.RESP, ioTimeout); err != nil || string(f) != "+OK\r\n" {
+		ctx.Inconclusive(fmt.Sprintf("monitor probe: MONITOR answered %q %v", f, err))
+		return
+	}
+	// from here on the monitor connection is never read
+	w, err := wire.Dial(s.Addr(), ioTimeout)
+	if err != nil {
+		ctx.Inconclusive("monitor probe: " + err.Error())
+		return
+	}
+	defer w.Close()
+	val := strings.Repeat("m", 100000)
+	answered := 0
+	var last error
+	start := time.Now()
+	for i := 0; i < 120; i++ {
+		if err := w.Write(wire.EncodeRESP("SET", "mon", "a", "STRING", val)); err != nil {
+			last = err
+			break
+		}
+		if _, err := w.Next(wire.RESP, 15*time.Second); err != nil {
+			last = err
+			break
+		}
+		answered++
+	}
+	ctx.Eval(1)
+	ctx.Distinct("term:monitor-not-reading")
+	if answered < 120 {
+		if !s.Alive() {
+			_, site := s.Crashed()
+			ck.report(crashKey(site), "server died in the monitor probe: "+site, map[string]any{"stderr": s.StderrTail(3000)})
+			return
+		}
+		can := &canary{s: ck.startServer()}
+		ok := can.answers()
+		can.s.Kill9()
+		if !ok {
+			ctx.Inconclusive("monitor probe: writes stalled and the canary server was slow too")
+			return
+		}
+		ck.report("wedge:monitor-not-reading", fmt.Sprintf("one connection sent MONITOR and stopped reading; another connection's `SET mon a STRING <100 KB>` was answered %d times and then not within 15 s (%v, %.1f s after the start): a command holds the server lock while it writes to the monitor", answered, last, time.Since(start).Seconds()),
+			map[string]any{"monitor": "MONITOR, then never read", "writer": "120 x SET mon a STRING <100000 bytes>", "answered": answered})
 	}
 }
